@@ -81,66 +81,85 @@ int main(int argc, char** argv) {
   std::vector<sx::BfsCase> bfs;
   std::vector<sx::EnumCase> en;
 
+  // Order: cheap cases first, the big state spaces (POD array, chunked
+  // deque) last.  seqx hands a case `time left x weight / weight left`, so the
+  // late cases inherit whatever the early ones did not use; weights are
+  // proportional to the measured cost of the thorough tier.
+  auto push = [&](sx::BfsCase c, int weight) {
+    c.weight = weight;
+    bfs.push_back(c);
+  };
+  // ---- fixed-size ring and bags -------------------------------------------
+  push(RingCase<3>::make(5, 8), 1);
+  push(RingCase<2>::make(5, 8), 1);
+  push(mk("FixedSizeRing<Elem,3> const rbegin()/rend()", 4, CRING_OPS,
+          cring_run, 3, 4),
+       1);
+  push(mk("FixedSizeBag<Elem,3> vs bounded multiset", BAG_NOPS, BAG_OPS,
+          bag_run, 5, 8),
+       1);
+  push(mk("ConcurrentFixedSizeBag<Elem,3> used by one thread", CBAG_NOPS,
+          CBAG_OPS, cbag_run, 5, 8),
+       1);
+  // ---- lazy storage, optional ---------------------------------------------
+  push(mk("LazyArray<Elem,3> manual lifetime", LA_NOPS, LA_OPS, la_run, 4, 7),
+       1);
+  push(mk("LazyObject<Elem> manual lifetime", LO_NOPS, LO_OPS, lo_run, 5, 8),
+       1);
+  push(mk("optional<Elem> vs std::optional", OPT_NOPS, OPT_OPS, opt_run, 4, 7),
+       1);
+  // ---- chunked singly linked list -----------------------------------------
+  push(GslistCase<2>::make(5, 10), 2);
+  push(GslistCase<3>::make(5, 10), 2);
+  // ---- flat map -----------------------------------------------------------
+  push(mk("flat_map<int,Elem> vs std::map", FM_NOPS, FM_OPS, FlatMapCase::run,
+          4, 8),
+       3);
+  // ---- priority queues -------------------------------------------------------
+  push(PqCase<galois::MinHeap<int>, false, std::less<int>, true>::make(
+           "MinHeap<int>", 5, 9),
+       2);
+  push(PqCase<galois::MinHeap<int, std::greater<int>>, false,
+              std::greater<int>, true>::make("MinHeap<int,std::greater>", 5, 9),
+       2);
+  push(PqCase<galois::ThreadSafeMinHeap<int>, false, std::less<int>,
+              true>::make("ThreadSafeMinHeap<int>", 5, 9),
+       2);
+  push(PqCase<galois::ThreadSafeOrderedSet<int>, true, std::less<int>,
+              true>::make("ThreadSafeOrderedSet<int>", 5, 9),
+       1);
+  push(PqCase<galois::MinHeap<int>, false, std::less<int>, false>::make(
+           "MinHeap<int>", 2, 3),
+       1);
+  push(PqCase<galois::ThreadSafeOrderedSet<int>, true, std::less<int>,
+              false>::make("ThreadSafeOrderedSet<int>", 2, 3),
+       1);
+  // ---- insert bag -------------------------------------------------------------
+  push(InsertBagCase<56>::make(4, 8), 3);
+  push(InsertBagCase<64>::make(4, 8), 3);
+  // ---- large array ----------------------------------------------------------
+  push(mk("LargeArray<Elem> allocation x lifetime", LG_NOPS, LG_OPS, lg_run, 4,
+          7),
+       2);
+  // ---- POD array ------------------------------------------------------------
+  push(mk("PODResizeableArray<int> push_back of own element", 4, PODA_OPS,
+          poda_run, 4, 8),
+       1);
+  push(mk("PODResizeableArray<int> vs std::vector", POD_NOPS, POD_OPS,
+          PodCase::run, 4, 7),
+       5);
   // ---- chunked deque ----------------------------------------------------
   {
-    auto c = GDequeCase<Elem, 2>::make(4, 8);
-    c.run  = gdeque_run<Elem, 2>;
-    bfs.push_back(c);
-    c     = GDequeCase<Elem, 3>::make(4, 8);
+    auto c = GDequeCase<int, 2>::make(4, 7);
+    c.run  = gdeque_run<int, 2>;
+    push(c, 6);
+    c     = GDequeCase<Elem, 3>::make(5, 7);
     c.run = gdeque_run<Elem, 3>;
-    bfs.push_back(c);
-    c        = GDequeCase<int, 2>::make(4, 7);
-    c.run    = gdeque_run<int, 2>;
-    c.weight = 2;
-    bfs.push_back(c);
+    push(c, 10);
+    c     = GDequeCase<Elem, 2>::make(4, 8);
+    c.run = gdeque_run<Elem, 2>;
+    push(c, 24);
   }
-  // ---- fixed-size ring and bags -------------------------------------------
-  bfs.push_back(RingCase<3>::make(5, 8));
-  bfs.push_back(RingCase<2>::make(5, 8));
-  bfs.push_back(mk("FixedSizeRing<Elem,3> const rbegin()/rend()", 4, CRING_OPS,
-                   cring_run, 3, 4));
-  bfs.push_back(mk("FixedSizeBag<Elem,3> vs bounded multiset", BAG_NOPS,
-                   BAG_OPS, bag_run, 5, 8));
-  bfs.push_back(mk("ConcurrentFixedSizeBag<Elem,3> used by one thread",
-                   CBAG_NOPS, CBAG_OPS, cbag_run, 5, 8));
-  // ---- chunked singly linked list -----------------------------------------
-  bfs.push_back(GslistCase<2>::make(5, 10));
-  bfs.push_back(GslistCase<3>::make(5, 10));
-  // ---- flat map -----------------------------------------------------------
-  bfs.push_back(mk("flat_map<int,Elem> vs std::map", FM_NOPS, FM_OPS,
-                   FlatMapCase::run, 4, 8, 2));
-  // ---- POD array ------------------------------------------------------------
-  bfs.push_back(mk("PODResizeableArray<int> vs std::vector", POD_NOPS, POD_OPS,
-                   PodCase::run, 4, 8, 2));
-  bfs.push_back(mk("PODResizeableArray<int> push_back of own element", 4,
-                   PODA_OPS, poda_run, 4, 8));
-  // ---- lazy storage, optional ---------------------------------------------
-  bfs.push_back(mk("LazyArray<Elem,3> manual lifetime", LA_NOPS, LA_OPS, la_run,
-                   4, 7));
-  bfs.push_back(mk("LazyObject<Elem> manual lifetime", LO_NOPS, LO_OPS, lo_run,
-                   5, 8));
-  bfs.push_back(mk("optional<Elem> vs std::optional", OPT_NOPS, OPT_OPS,
-                   opt_run, 4, 7));
-  // ---- priority queues -------------------------------------------------------
-  bfs.push_back(PqCase<galois::MinHeap<int>, false, std::less<int>, true>::make(
-      "MinHeap<int>", 5, 9));
-  bfs.push_back(
-      PqCase<galois::MinHeap<int, std::greater<int>>, false, std::greater<int>,
-             true>::make("MinHeap<int,std::greater>", 5, 9));
-  bfs.push_back(PqCase<galois::ThreadSafeMinHeap<int>, false, std::less<int>,
-                       true>::make("ThreadSafeMinHeap<int>", 5, 9));
-  bfs.push_back(PqCase<galois::ThreadSafeOrderedSet<int>, true, std::less<int>,
-                       true>::make("ThreadSafeOrderedSet<int>", 5, 9));
-  bfs.push_back(PqCase<galois::MinHeap<int>, false, std::less<int>,
-                       false>::make("MinHeap<int>", 2, 3));
-  bfs.push_back(PqCase<galois::ThreadSafeOrderedSet<int>, true, std::less<int>,
-                       false>::make("ThreadSafeOrderedSet<int>", 2, 3));
-  // ---- insert bag -------------------------------------------------------------
-  bfs.push_back(InsertBagCase<56>::make(4, 8));
-  bfs.push_back(InsertBagCase<64>::make(4, 8));
-  // ---- large array ----------------------------------------------------------
-  bfs.push_back(
-      mk("LargeArray<Elem> allocation x lifetime", LG_NOPS, LG_OPS, lg_run, 4, 7, 3));
 
   // ---- enumerations -----------------------------------------------------------
   {
@@ -149,7 +168,6 @@ int main(int argc, char** argv) {
     c.count    = [](bool th) { return tl_nshapes(th) * TL_NVAR; };
     c.run      = tl_run;
     c.describe = tl_describe;
-    c.weight   = 2;
     en.push_back(c);
   }
   {
@@ -185,7 +203,11 @@ int main(int argc, char** argv) {
     c.count    = [](bool) { return (uint64_t)NPROBES; };
     c.run      = probe_run;
     c.describe = [](uint64_t i, bool) { return std::string(PROBES[i].what); };
-    en.push_back(c);
+    // A member that does not compile cannot occur in "a sequence of
+    // operations": compile probes are outside C14's statement.  They are kept
+    // as an opt-in diagnostic only.
+    if (getenv("VERIF_COMPILE_PROBES"))
+      en.push_back(c);
   }
   // Watchdog: a history on which the library spins forever (it happens:
   // ThreadSafeOrderedSet::remove on an empty set) must end as a crash verdict
